@@ -396,3 +396,7 @@ fn report_shutdown(reason: &eyre::Result<&str>) {
         Err(reason) => error!(%reason, "starting shutdown"),
     }
 }
+
+#[cfg(all(test, feature = "verif-crash"))]
+#[path = "/verif/harness/relayer/crash.rs"]
+mod verif;
